@@ -6,7 +6,11 @@ pvf/ref/pktdissect.py, never by POX), every truncation and five single-byte corr
 
 Oracle (from the property text): PacketIn(con, ofp).parsed returns; the .next chain terminates in bytes or
 None; every layer exposes a boolean `parsed`; where parsing stopped the remainder is still there as bytes
-taken from the input; str(), dump() and pack() of the result return.
+taken from the input; str(), dump() and pack() of the result return; the read-only use packet-in handlers of the
+repository make of a parse result (every public property of every layer, among them effective_ethertype; find() by
+name and class; addresses; ofp_match.from_packet) returns ("cannot make an event handler fail").
+Exception keys of the phases behind the parse carry the reference dissector's verdict on the input ("ref"), so that
+"well-formed content cannot be written back" and "a malformed structure was accepted" are different root causes.
 """
 import itertools
 
@@ -18,7 +22,8 @@ from ..ref import pktdissect as P
 ID = "C15"
 LEVEL = "fault_enumeration"
 TECHNIQUE = ("exhaustive single-fault enumeration (every truncation, 5-value corruption of every byte) over a reference-built corpus of every "
-             "protocol, plus Hypothesis structure-aware mutation (dissector-located fields, checksum repair, splices) and random bytes")
+             "protocol, plus Hypothesis structure-aware mutation (dissector-located fields, checksum repair, splices) and random bytes; every "
+             "parse result is walked, printed, re-serialised and read the way the stock packet-in handlers read it")
 LEVEL_TEXT = ("Fault enumeration: for a fixed corpus of valid frames covering every parser, every truncation length and every single-byte "
               "corruption with the values {0, 0xff, b^1, b^0x80, b+1} is executed (thorough: all 256 values on header bytes); beyond one fault "
               "the space is sampled with structure-aware Hypothesis mutation. Totality over all byte strings is not established.")
@@ -26,7 +31,9 @@ LEVEL_NOTE = "the corpus is built by an independent reference builder; frames lo
 RULE = ("a case is one byte string offered as an Ethernet frame inside a packet-in; non-trivial when its link-layer header selects a POX parser "
         "below Ethernet (ethertype in POX's table or an 802.3 length) and it differs from every corpus frame; distinct by SHA-1 of the bytes")
 ASSUMPTIONS = [
-  "a packet-in handler does at most: event.parsed, walk .next, read .parsed, str()/dump() for logging, pack() for re-emission",
+  "a packet-in handler does at most: event.parsed, walk .next, read .parsed, str()/dump() for logging, pack() for re-emission, and read-only "
+  "access in the style of the stock components (public properties of the layer classes, find(), Ethernet addresses, ofp_match.from_packet); "
+  "option / TLV objects inside a layer are not exercised beyond what str() and pack() of the layer do",
   "the number of layers is bounded by len(frame)//4 + 8 (nested encapsulations such as MPLS/GRE legitimately produce deep chains)",
   "an unparsed last layer must still hold the remainder as bytes in .raw or .next; byte-exact re-serialisation is not demanded here (C14)",
 ]
@@ -42,7 +49,11 @@ EXHAUSTIVE_SCOPE = {
            "followed by 1, 2 and 46 padding octets; option slots additionally with lengths exact-8/-4/-2/+2/+4 and, for MPTCP DSS, every flag "
            "combination with the lengths RFC 6824 implies (with and without checksum); every LLC header with DSAP x SSAP x control format (SNAP / other "
            "SAPs, U-/I-/S-format) cut at each of its first ten octets; the text-bearing fields (DNS labels/TXT, LLDP strings, DHCP string options, "
-           "sname/file, EAP identity) filled with valid 2-/3-/4-byte UTF-8 sequences and with malformed UTF-8",
+           "sname/file, EAP identity) filled with valid 2-/3-/4-byte UTF-8 sequences and with malformed UTF-8; TCP option areas against the header / "
+           "payload boundary: data offset {6,7,10,14,15} x well-formed fill (NOPs / timestamps) x a last option starting 1,2,3,4,6,10 octets before "
+           "the boundary x every kind POX has a class for (and an unknown one, and an MPTCP subtype without a class) x length octet {0,1,2, short of, "
+           "exactly at, and 1,2,4,8,16,38 octets or up to 255 beyond the boundary} x payload {0,8,40,256} octets, over IPv4 and (data offset 15) IPv6; "
+           "SNAP headers additionally with the OUIs {0, 00-00-0c, 00-80-c2, 00-00-01, ff-ff-ff} x every protocol id that selects a POX parser (and four that select none)",
   "thorough": "as quick, plus all 256 values at every byte offset that the reference dissector attributes to a header (not to the innermost payload)",
 }
 
@@ -106,12 +117,28 @@ def _lib_frame(e):
   return None
 
 
+_CUR = [b""]
+
+
+def _ref_verdict(raw):
+  """what the independent reference dissector says about the structure of the input: 'well-formed', 'truncated', or the first
+  structural error it meets ('tcp option length', 'ipv4 version/ihl', ...)"""
+  err = P.dissect(raw).error
+  if err is None:
+    return "well-formed"
+  return "truncated" if err.startswith("short") else err
+
+
 def _exc(out, e, phase, **extra):
   import traceback
   k = exc_key(e, clause=phase, **extra)
   w = _lib_frame(e)
   if w is not None:
     k["where"] = w
+  if phase in ("pack", "print", "access"):
+    # the parse went through: "re-serialising / reading what was parsed from a well-formed frame fails" and "the parser accepted
+    # a malformed structure that cannot be written / read back" are different root causes behind the same innermost frame
+    k["ref"] = _ref_verdict(_CUR[0])
   out.violations.append({"key": k, "msg": "%s raised %r\n%s" % (phase, e, "".join(traceback.format_exception(e))[-1200:])})
 
 
@@ -125,9 +152,12 @@ def run_case(case):
     # the fault is followed by a repair of every checksum the reference dissector can locate, so that
     # parsers guarded by a checksum (ICMPv6, IGMP) still see the damaged structure
     raw = P.fix_checksums(raw)
+  _CUR[0] = raw
   out = Outcome()
   out.label("src:" + case.get("src", "?").split(":")[0])
   out.label("eth:" + _ethclass(raw))
+  if case.get("cls"):
+    out.label(case["cls"])
   out.nontrivial = P.reaches_parser(raw) and raw not in _corpus_set()
 
   # phase 1: the lazy parse of a packet-in event
@@ -214,9 +244,78 @@ def run_case(case):
       out.fail("pack-type", "pack() returned a %s" % type(b).__name__)
   except Exception as e:
     _exc(out, e, "pack")
+
+  # phase 4: what packet-in handlers in the repository do with a parse result before they decide anything
+  _handler_access(out, p, layers, of)
   if out.violations:
     out.label("violating")
   return out
+
+
+# names handlers pass to find(): every layer class the library can put into a chain, one it cannot
+_FIND_NAMES = ("ethernet", "vlan", "llc", "arp", "ipv4", "ipv6", "tcp", "udp", "icmp", "icmpv6", "igmp", "gre", "vxlan", "mpls", "dhcp",
+               "dns", "rip", "lldp", "eapol", "eap", "no_such_layer")
+_ACC = {}
+
+
+def _accessors(cls):
+  """the documented read-only accessors of a layer class: every public `property` that the class or one of its bases inside
+  pox.lib.packet defines (effective_ethertype, type, payload, has_snap, srcip / dstip of an ICMP error, the TCP flag bits, len ...)"""
+  names = _ACC.get(cls)
+  if names is None:
+    s = set()
+    for c in cls.__mro__:
+      if (c.__module__ or "").startswith("pox.lib.packet"):
+        s.update(n for n, v in vars(c).items() if isinstance(v, property) and not n.startswith("_"))
+    names = _ACC[cls] = sorted(s)
+  return names
+
+
+def _handler_access(out, p, layers, of):
+  """read-only use of the parse result in the style of l2_learning / l2_multi / discovery / l3_learning / host_tracker /
+  arp_responder: the Ethernet addresses and type, truth value, every public property of every layer (among them
+  effective_ethertype, which discovery and l2_multi read from EVERY packet-in), find() by name and by class from every layer.
+  Nothing here writes to the packet.  Judged: none of it raises; find() gives a parsed layer of the asked class or None."""
+  for l in layers:
+    tn = type(l).__name__
+    for name in _accessors(type(l)):
+      try:
+        getattr(l, name)
+      except Exception as e:
+        _exc(out, e, "access", accessor=name, layer=tn)
+    try:
+      bool(l)
+    except Exception as e:
+      _exc(out, e, "access", accessor="bool", layer=tn)
+  if not layers:
+    return
+  try:
+    p.src, p.dst, p.type
+    p.dst.is_multicast, p.src.is_multicast, str(p.src), str(p.dst)
+  except Exception as e:
+    _exc(out, e, "access", accessor="addresses", layer=type(p).__name__)
+  classes = tuple(dict.fromkeys(type(l) for l in layers))
+  for start in layers:
+    # by every name from the head of the chain (what handlers do); from the inner layers by the classes present and an absent one
+    for key in (_FIND_NAMES + classes) if start is p else (classes + ("no_such_layer",)):
+      kn = key if isinstance(key, str) else key.__name__
+      try:
+        r = start.find(key)
+      except Exception as e:
+        _exc(out, e, "access", accessor="find", layer=type(start).__name__)
+        break
+      if r is None:
+        continue
+      if type(r).__name__ != kn or r.parsed is not True or not any(r is l for l in layers):
+        out.fail("find-result", "find(%r) from %s gave %s (parsed=%r)" % (kn, type(start).__name__, type(r).__name__, getattr(r, "parsed", None)),
+                 asked=kn, got=type(r).__name__)
+  if any(type(l).__name__ in ("vlan", "llc") for l in layers):
+    out.label("access:effective-ethertype-through-" + "+".join(sorted(set(type(l).__name__ for l in layers if type(l).__name__ in ("vlan", "llc")))))
+  # l2_learning / l2_multi / l3_learning / of_tutorial: a match built from the packet, for the flow entry they install
+  try:
+    of.ofp_match.from_packet(p, 1)
+  except Exception as e:
+    _exc(out, e, "access", accessor="ofp_match.from_packet")
 
 
 # --------------------------------------------------------------------------- exhaustive single faults
@@ -452,6 +551,7 @@ _DEMUX = {
   ("eth", "type"): list(P.POX_ETHERTYPES) + [0x88b5, 0, 3, 46, 1500, 1535],
   ("vlan", "type"): list(P.POX_ETHERTYPES) + [0x88b5, 0, 46, 1500],
   ("llc", "snap_type"): list(P.POX_ETHERTYPES) + [0x88b5, 0, 46],
+  ("llc", "oui"): [0, 0x00000c, 0x0080c2, 0x000001, 0xffffff],        # SNAP: RFC 1042 encapsulation (zero) and organisation-specific
   ("ipv4", "proto"): [1, 2, 4, 6, 17, 41, 47, 253],
   ("ipv6", "nh"): list(P.POX_NH6) + [1, 2, 47, 253],
   ("icmp", "type"): [0, 3, 4, 5, 8, 11, 13, 255],
@@ -492,12 +592,14 @@ def enum_demux(tier):
 
 
 _LLC_SAPS = (0xaa, 0xab, 0x42, 0x00, 0xe0, 0xff)
+_SNAP_OUIS = (b"\0\0\0", b"\0\0\x0c", b"\0\x80\xc2", b"\0\0\x01", b"\xff\xff\xff")
 _LLC_CTRL = (0x03, 0x00, 0x01, 0x02, 0x7f, 0xff)      # U-, I-, S-, I-format, U (0x7f), U (0xff) by the two low bits
 
 
 def enum_llc(tier):
   """802.2 header formats: every corpus frame with an LLC header gets DSAP x SSAP x first control octet (SNAP and non-SNAP
-  SAPs; U-, I- and S-format control fields), each as is and cut at every length from the LLC start to 10 octets into it"""
+  SAPs; U-, I- and S-format control fields), each as is and cut at every length from the LLC start to 10 octets into it;
+  every SNAP header additionally organisation code x protocol id"""
   for name, f in corpus():
     d = P.dissect(f)
     for l in d.layers:
@@ -512,6 +614,112 @@ def enum_llc(tier):
             for k in range(0, 11):
               if off + k < len(m):
                 yield {"raw": m[:off + k], "src": "llc:%s:%02x/%02x/%02x:cut%d" % (name, ds, ss, c, k)}
+      # SNAP (RFC 1042 / IEEE 802): organisation code x protocol id.  Only OUI 00-00-00 makes the protocol id an ethertype; POX keeps
+      # the payload of every other OUI as bytes, whatever the protocol id says
+      if "oui" in l["f"] and "snap_type" in l["f"]:
+        oo, ot = l["f"]["oui"][0], l["f"]["snap_type"][0]
+        for oui in _SNAP_OUIS:
+          for ty in tuple(P.POX_ETHERTYPES) + (0x88b5, 0, 46, 0xffff):
+            m = f[:oo] + oui + f[oo + 3:ot] + ty.to_bytes(2, "big") + f[ot + 2:]
+            yield {"raw": m, "src": "llc:%s:snap:%s/%04x" % (name, oui.hex(), ty)}
+
+
+def _inet_sum(b):
+  if len(b) % 2:
+    b += b"\0"
+  s = sum((b[i] << 8) | b[i + 1] for i in range(0, len(b), 2))
+  while s >> 16:
+    s = (s & 0xffff) + (s >> 16)
+  return (~s) & 0xffff
+
+
+def tcp_segment_frame(carrier, doff, area, payload):
+  """Ethernet / IPv4 or IPv6 / TCP frame written out octet by octet (RFC 791, 8200, 9293): the TCP header says `doff` 32-bit
+  words, `area` is what stands behind the 20 fixed octets (normally (doff-5)*4 octets of options), then the payload.  Both
+  checksums are correct, whatever the options say."""
+  tcp = bytearray((40000).to_bytes(2, "big") + (80).to_bytes(2, "big") + (1000).to_bytes(4, "big") + (2000).to_bytes(4, "big")
+                  + bytes([(doff & 0xf) << 4, 0x18]) + (8192).to_bytes(2, "big") + b"\0\0\0\0" + bytes(area) + bytes(payload))
+  if carrier == "ipv6":
+    pseudo = P.S1 + P.S2 + len(tcp).to_bytes(4, "big") + b"\0\0\0\x06"
+    tcp[16:18] = _inet_sum(pseudo + bytes(tcp)).to_bytes(2, "big")
+    ip = b"\x60\0\0\0" + len(tcp).to_bytes(2, "big") + b"\x06\x40" + P.S1 + P.S2
+    return P.M2 + P.M1 + b"\x86\xdd" + ip + bytes(tcp)
+  pseudo = P.A1 + P.A2 + b"\0\x06" + len(tcp).to_bytes(2, "big")
+  tcp[16:18] = _inet_sum(pseudo + bytes(tcp)).to_bytes(2, "big")
+  ip = bytearray(b"\x45\0" + (20 + len(tcp)).to_bytes(2, "big") + b"\0\x07\0\0\x40\x06\0\0" + P.A1 + P.A2)
+  ip[10:12] = _inet_sum(bytes(ip)).to_bytes(2, "big")
+  return P.M2 + P.M1 + b"\x08\x00" + bytes(ip) + bytes(tcp)
+
+
+_TS_OPT = b"\x08\x0a\0\0\0\x01\0\0\0\x02"
+_AREA_FILL = {
+  "nop": lambda n: b"\x01" * n,
+  "ts": lambda n: _TS_OPT * (n // 10) + b"\x01" * (n % 10),                       # timestamps, then NOPs
+}
+
+
+def enum_option_area(tier, shard=0, nshards=1):
+  """The TCP option area against the header / payload boundary (RFC 9293 3.1: options occupy exactly the space the data offset
+  leaves behind the fixed header).  For data offsets 6, 7, 10, 14 and 15 (the maximum: 40 option octets) the area is filled with
+  well-formed options (NOPs / timestamps) up to the last r = 1, 2, 3, 4, 6 or 10 octets, where one more option of
+  every kind POX has a class for (and an unknown one) starts whose length octet says: less than a header (0, 1), short of the
+  boundary, exactly to the boundary, and 1, 2, 4, 8, 16, 38 octets or as far as 255 BEYOND the boundary into the payload
+  (r = 1: the length octet itself is the first payload octet); payloads of 0, 8, 40 and 256 octets, so that the overrun ends
+  inside the payload, at its end, and behind the end of the segment; over IPv4 and (largest data offset) IPv6."""
+  kinds = _KINDS["tcpopt"]
+  idx = -1
+  for doff in (6, 7, 10, 14, 15):
+    A = (doff - 5) * 4
+    for carrier in (("ipv4", "ipv6") if doff == 15 else ("ipv4",)):
+      for r in (1, 2, 3, 4, 6, 10):
+        if r > A:
+          continue
+        for fill in (("nop", "ts") if A - r >= 10 else ("nop",)):
+          head = _AREA_FILL[fill](A - r)
+          for k in kinds:
+            lens = [None] if k in (0, 1) else list(dict.fromkeys(v for v in (0, 1, 2, r - 1, r, r + 1, r + 2, r + 4, r + 8, r + 16, r + 38, 255)
+                                                                 if 0 <= v <= 255))
+            for ln in lens:
+              for pay in (0, 8, 40, 256):
+                idx += 1
+                if idx % nshards != shard:          # the driver shards itself: frames are only built in the shard that runs them
+                  continue
+                body = (bytes([k]) if ln is None else bytes([k, ln])) + P.pattern(300, 7)
+                if k == 30 and ln is not None:
+                  body = bytes([k, ln, 0xf0]) + P.pattern(300, 7)      # MPTCP subtype without a class: any length is taken
+                raw = tcp_segment_frame(carrier, doff, head + body[:r], body[r:r + pay])
+                if ln is None:
+                  cls = "single-octet-kind"
+                elif ln < 2:
+                  cls = "length-below-2"
+                elif ln <= r:
+                  cls = "ends-at-boundary" if ln == r else "ends-before-boundary"
+                else:
+                  cls = "overruns-into-payload" if ln - r <= pay else "overruns-past-segment"
+                yield {"raw": raw, "cls": "optarea:" + cls, "src": "optarea:tcp:%s:doff%d:r%d:%s:%d/%s:pay%d" % (carrier, doff, r, fill, k, ln, pay)}
+
+
+@st.composite
+def _s_tcp_options(draw):
+  """TCP segment whose option area is a drawn list of options; the data offset is drawn separately from the octets the options
+  occupy (equal, one word less / more, maximum), and the last option's length octet may be re-drawn, so that options end before,
+  at and behind the header / payload boundary"""
+  opts = draw(st.lists(st.one_of(
+      st.sampled_from([b"\x01", b"\x01\x01", b"\x02\x04\x05\xb4", b"\x03\x03\x07", b"\x04\x02", _TS_OPT, b"\x05\x0a" + b"\0" * 8,
+                       b"\x05\x12" + b"\0" * 16, b"\x1e\x04\x20\x00", b"\x1e\x08\x20\x01\0\0\0\x09", b"\x1e\x0c\x00\x81" + b"\x11" * 8]),
+      st.tuples(st.sampled_from(_KINDS["tcpopt"][2:] + [253, 255]), st.binary(max_size=12)).map(lambda t: bytes([t[0], 2 + len(t[1])]) + t[1])),
+      max_size=12))
+  area = b"".join(opts)[:40]
+  words = (len(area) + 3) // 4
+  area += b"\x01" * (words * 4 - len(area))
+  if opts and len(opts[-1]) >= 2 and draw(st.booleans()):
+    pos = len(b"".join(opts[:-1]))
+    if pos + 1 < len(area):
+      area = area[:pos + 1] + bytes([draw(st.one_of(st.integers(0, 60), st.integers(0, 255)))]) + area[pos + 2:]
+  doff = draw(st.sampled_from([5 + words, 5 + words, 5 + words, 4 + words, 6 + words, 15, 5]))
+  doff = max(0, min(15, doff))
+  pay = draw(st.one_of(st.binary(max_size=48), st.integers(0, 300).map(lambda n: P.pattern(n, 5))))
+  return {"raw": tcp_segment_frame(draw(st.sampled_from(["ipv4", "ipv4", "ipv6"])), doff, area, pay), "src": "tcpopts"}
 
 
 def _text_variants():
@@ -665,7 +873,7 @@ def _s_random(draw):
 
 
 def _strategy(tier):
-  return st.one_of(_s_field(), _s_field(), _s_splice(), _s_multi(), _s_tail(), _s_random(),
+  return st.one_of(_s_field(), _s_field(), _s_splice(), _s_multi(), _s_tail(), _s_random(), _s_tcp_options(),
                    _text_frames().map(lambda f: {"raw": f, "src": "text"}),
                    st.binary(max_size=64).map(lambda b: {"raw": b, "src": "random:short"}))
 
@@ -678,6 +886,11 @@ def _fuzz_drivers():
   return [atheris_driver("fuzz-frames", "pvf.props.c15", runs=600000, corpus="corpus/C15", max_len=1604, timeout_s=600)]
 
 
+def _sharded(fn):
+  fn.sharded = True
+  return fn
+
+
 def plan(tier):
   if tier == "quick":
     return [
@@ -688,6 +901,7 @@ def plan(tier):
       Enum("length-fields", lambda: enum_lengths(tier), shards=8),
       Enum("llc-formats", lambda: enum_llc(tier), shards=8),
       Enum("utf8-text", lambda: enum_text(tier), shards=2),
+      Enum("tcp-option-area-boundary", _sharded(lambda sh, n: enum_option_area(tier, sh, n)), shards=8),
       Hyp("mutation", lambda: _strategy(tier), examples=6000, shards=16),
     ]
   return [
@@ -698,6 +912,7 @@ def plan(tier):
     Enum("length-fields", lambda: enum_lengths(tier), shards=8),
     Enum("llc-formats", lambda: enum_llc(tier), shards=8),
     Enum("utf8-text", lambda: enum_text(tier), shards=2),
+    Enum("tcp-option-area-boundary", _sharded(lambda sh, n: enum_option_area(tier, sh, n)), shards=8),
     Enum("all-values-on-headers", lambda: enum_all_values(tier), shards=16),
     Hyp("mutation", lambda: _strategy(tier), examples=400000, shards=16),
   ] + _fuzz_drivers()
